@@ -10,6 +10,7 @@ from ..roles import RoleLost
 from .. import pat, cfg
 from ..f64facts import const_f64
 from . import common
+from .. import idroles
 from .c17 import reachable_bodies, DENIED_PREFIXES
 
 PID = "C05"
@@ -158,7 +159,7 @@ def rule_a(ctx, R, tb):
             good = op in ("Le", "Lt") and tgt == te
             kinds["test"] = (sb, x, op, good)
             test = (sb, x, op, good)
-        elif c and c[0] == "call" and c[1].get("callee", {}).get("name") == "is_empty":
+        elif c and c[0] == "call" and idroles.is_role(ctx, c[1], "is_empty"):
             r = v.root(c[1]["args"][0])
             kinds["empty"] = (sb, r == loopvar and tgt == fe)
         elif c and c[0] == "call" and callee_is(c[1], trait="PartialEq", name=("ne", "eq")):
